@@ -287,6 +287,27 @@ def gen_spec(rng):
     return {'header': header, 'subgrids': sgs, 'fields': fields, 'nul_padding': rng.random() < 0.25}
 
 
+def shift_spec(spec, dr, dc):
+    """the same file layout (same sub-grids, sizes, fields - hence the same byte size) moved by dr / dc cells
+    of the coarsest spacing: another grid under the same path; None if it would leave the globe"""
+    import copy
+    out = copy.deepcopy(spec)
+    li = max(sg['lat_inc_m'] for sg in out['subgrids'])
+    lo = max(sg['long_inc_m'] for sg in out['subgrids'])
+    for sg in out['subgrids']:
+        if li % sg['lat_inc_m'] or lo % sg['long_inc_m']:
+            return None
+        sg['s_lat_m'] += dr * li
+        sg['e_long_m'] += dc * lo
+        sg.pop('n_lat', None)
+        sg.pop('w_long', None)
+        _finish(sg)
+        b = _bbox(sg)
+        if b[0] < -88 * 3600 or b[1] > 88 * 3600 or b[2] < -179.5 * 3600 or b[3] > 179.5 * 3600:
+            return None
+    return out
+
+
 def build_file(spec):
     fields = spec['fields']
 
@@ -608,6 +629,26 @@ class C17(CheckBase):
             ops.insert(rng.randrange(0, len(ops) + 1), {'id': 999, 'kind': 'concurrent', 'subs': subs, 'seed': rng.getrandbits(32)})
         path = rng.choice(['/data/grids/test.gsb', 'grid.gsb', './sub/../grid file.gsb', '/sim/NTv2_0.gsb'])
         tr = {'property': 'C17', 'spec': spec, 'path': path, 'ops': ops, 'faults': faults}
+        if not fault_run and rng.random() < 0.08:
+            # later the file is replaced IN PLACE by another grid of the same byte size (same time stamp: the
+            # simulated disk's clock stands still) and read again
+            for _ in range(6):
+                dr, dc = rng.choice([-3, -2, -1, 1, 2, 3]), rng.choice([-3, -2, -1, 0, 1, 2, 3])
+                spec2 = shift_spec(spec, dr, dc)
+                if spec2 is not None:
+                    break
+            if spec2 is not None:
+                ops2 = []
+                for j in range(rng.choice([3, 5, 8])):
+                    sg = rng.choice(spec2['subgrids'])
+                    cls = rng.choice(['node', 'interior', 'ring', 'corner', 'edge', 'just-inside', 'just-outside', 'far'])
+                    lat, lon = self._position(rng, sg, cls)
+                    o = {'id': 2000 + j, 'kind': rng.choice(['q', 'q', 'tf']), 'lat': lat, 'lon': lon,
+                         'method': rng.choice(['bicubic', 'bilinear']), 'cls': cls, 'rot': 'none'}
+                    if o['kind'] == 'tf':
+                        o.update(fwd=rng.random() < 0.5, default_args=False)
+                    ops2.append(o)
+                tr['rewrite'] = {'shift': [dr, dc], 'ops': ops2}
         if not fault_run and rng.random() < 0.3:
             spec2 = gen_spec(rng)
             extra = []
@@ -821,6 +862,28 @@ class C17(CheckBase):
                     continue
                 judged += self._do_op(op, grid, model, fs, path, apath, data, layout, spec, fault_run, bool(torn), arm,
                                       V, bump, log, sigset, topo, fclasses)
+        rw = trace.get('rewrite')
+        if rw and grid is not None and not fault_run:
+            spec2 = shift_spec(spec, rw['shift'][0], rw['shift'][1])
+            if spec2 is not None:
+                data2, layout2 = build_file(spec2)
+                if len(data2) == len(data):
+                    fs.put(path, data2, in_place=True, mtime=fs.mtime.get(apath))
+                    bump('probe:file_replaced_in_place_same_size_same_mtime')
+                    log.add('rewrite', rw['shift'])
+                    try:
+                        grid2 = nr.read_ntv2_file(path)
+                    except Exception as e:
+                        grid2 = None
+                        V('read-raised', 'read_ntv2_file', {'exc': type(e).__name__, 'msg': str(e)[:200], 'file': 'replaced in place'})
+                    if grid2 is not None:
+                        self._check_meta(grid2, spec2, path, lambda o, site, d: V(o, site, dict(d, after='file replaced in place')),
+                                         None, layout2)
+                        model2 = Model(spec2)
+                        topo2 = self._topology(spec2)
+                        for op in rw['ops']:
+                            judged += self._do_op(op, grid2, model2, fs, path, apath, data2, layout2, spec2, False, False, arm,
+                                                  V, bump, log, sigset, topo2, fclasses)
         for k, v in fs.fired.items():
             if k in ('eio',):
                 bump('fault:' + k, v)
